@@ -84,6 +84,21 @@ CHECKS['C19'] = dict(
     technique='Lean 4 proof (structural induction: collection = filtered pre-order of headings) + correspondence of _headings + outline-oracle exploration of toc nesting',
     ref='DESIGN.md section 5, C19')
 
+CHECKS['C17'] = dict(
+    text='Lean 4 theorems for EVERY token tree and every attribute string: the LaTeX renderer model emits an event list '
+         'with properly nested brace groups and begin/end pairs, only the renderer\'s own commands, environments and '
+         'template literals, document text in which each of $ # { } & _ % ^ \\ occurs only inside an escaped form, URL '
+         'arguments without braces/backslashes/raw % #, and a verb delimiter that does not occur in the code (or the '
+         'documented refusal). The per-character escape tables are re-probed from /repo on every run, so a dropped or '
+         'reordered escape breaks a `decide` obligation. The renderer model is tied to the code byte-for-byte on parser '
+         'ASTs and on hostile edited ASTs.',
+    note='Trusted: Lean kernel (axioms propext/Classical.choice/Quot.sound at most); table extraction and correspondence '
+         'harness; latexcheck.py as executable reading of the predicate on implementation output. Verbatim regions '
+         '(verb, lstlisting body, math) are set aside as the property says; URL arguments are a leaf kind with their own '
+         'obligation (hyperref reads them verbatim-like).',
+    technique='Lean 4 proof (structural induction over the token tree; decide over regenerated escape tables) + byte-exact renderer correspondence',
+    ref='DESIGN.md section 5, C17')
+
 NOT_YET = {}
 
 
